@@ -171,6 +171,24 @@ def engine_level(ctx):
                 if "act" in L.parse_trace(t2)[0] or L.parse_trace(t2)[1] == "ok":
                     ctx.fail("altered-reply-accepted:%s:%s" % (L.family(c), what),
                              {"engine": eng, "field": what, "client": L.sc_json(c2)}, t2[-200:])
+            # ---- structural: each reply field replaced by the EMPTY string (mpint: zero), or the body cut off there
+            for idx, what in enumerate(["hostkey", "value", "signature"]):
+                for mode in ("empty", "truncated"):
+                    alt = list(fields)
+                    alt[idx] = 0 if kinds[idx] == "m" else b""
+                    body = L.rebuild(last_t, *zip(kinds, alt))[1:] if mode == "empty" else \
+                        L.rebuild(last_t, *zip(kinds[:idx], fields[:idx]))[1:]
+                    c4 = dict(c)
+                    c4["pkts"] = c["pkts"][:-1] + [(last_t, body, last_x)]
+                    t4 = L.run_scenario(c4)
+                    scs.append(c4)
+                    meta.append(("structural", eng, "c", what + "-" + mode))
+                    ctx.case(("structural", eng, what, mode, tuple(c4["pkts"])), True)
+                    ctx.dist("structural:%s-%s" % (what, mode))
+                    if "act" in L.parse_trace(t4)[0] or L.parse_trace(t4)[1] == "ok":
+                        ctx.fail("altered-reply-accepted:%s:%s-%s" % (L.family(c), what, mode),
+                                 {"engine": eng, "field": what, "mutation": mode, "client": L.sc_json(c4)},
+                                 "the client completed the exchange: " + t4[-200:])
             # ---- the same point in its OTHER valid encoding: the hash must cover the bytes as received
             if L.family(c) == "nist":
                 ks_b, qs_b, sig_b = L.split_fields(bytes([last_t]) + last_body, "sss")
@@ -526,6 +544,14 @@ def e2e_mitm(ctx, kex, kind, algo, field, rng):
                 f[2] = bytes(b)
             hit.append(1)
             return L.rebuild(t, *zip(kinds, f))
+        if field.startswith(("empty-", "cut-")) and d == "s2c" and t == reply_t:
+            f = L.split_fields(payload, kinds)
+            idx = {"hostkey": 0, "value": 1, "signature": 2}[field.split("-", 1)[1]]
+            hit.append(1)
+            if field.startswith("empty-"):
+                f[idx] = 0 if kinds[idx] == "m" else b""
+                return L.rebuild(t, *zip(kinds, f))
+            return L.rebuild(t, *zip(kinds[:idx], f[:idx]))  # the packet ends where the field should start
         if field == "reencode-Q_S" and d == "s2c" and t == 31 and fam == "ec":
             f = L.split_fields(payload, "sss")
             f[1] = recompress(kex, f[1])
@@ -678,7 +704,8 @@ def end_to_end(ctx):
     if ctx.thorough:
         plan = [(k, kind, algo, f) for k in ALL_ENGINES for kind, algo in [KEY_ALGOS[2], KEY_ALGOS[3], KEY_ALGOS[6]]
                 for f in fields + (["gex-group-p", "gex-group-g"] if k.startswith("gex") else [])
-                + (["reencode-Q_S", "reencode-Q_C"] if k.startswith("nist") else [])]
+                + (["reencode-Q_S", "reencode-Q_C"] if k.startswith("nist") else [])
+                + ["empty-hostkey", "empty-value", "empty-signature", "cut-hostkey", "cut-value", "cut-signature"]]
     else:
         plan = []
         for k in ["group14-256", "gex256", "nistp256", "c25519"]:
@@ -690,6 +717,13 @@ def end_to_end(ctx):
         for j, k in enumerate(["nistp256", "nistp384", "nistp521"]):
             for f in ("reencode-Q_S", "reencode-Q_C"):
                 plan.append((k,) + KEY_ALGOS[(j * 2 + len(f)) % 7] + (f,))
+        # structural edits of the reply, every kex family: a field emptied, or the packet cut off at that field
+        sfields = ["empty-hostkey", "empty-value", "empty-signature", "cut-hostkey", "cut-signature"]
+        for j, k in enumerate(["c25519", "nistp256", "group14-256", "group16", "gex256"]):
+            for i, f in enumerate(sfields):
+                plan.append((k,) + KEY_ALGOS[(i + 2 * j) % 7] + (f,))
+        plan.append((rng.choice(["nistp384", "nistp521", "group1", "group14", "gex"]),) + KEY_ALGOS[rng.randrange(7)]
+                    + ("empty-hostkey",))
     for kex, kind, algo, f in plan:
         e2e_mitm(ctx, kex, kind, algo, f, rng)
     # the same on a re-exchange (host key unchanged)
@@ -786,7 +820,8 @@ def run(ctx):
                 "out-of-order packets; _set_K_H sequences of length 0-6 with and without a preset id. end to end: "
                 "every kex with a host-key algorithm (thorough: all 10 x 7), 1-5 rekeys initiated by either side, and "
                 "single-field MITM edits (host key flipped / swapped, f or Q_S, signature, client value, gex p, gex g, Q_S / Q_C "
-                "re-encoded as the same point in compressed form), the same edits (signature, value, replayed first signature) on a RE-exchange with the same host key. "
+                "re-encoded as the same point in compressed form; each reply field EMPTIED or the packet cut off at it, "
+                "every kex family; at engine level the toy verification runs through the REAL Transport._verify_key), the same edits (signature, value, replayed first signature) on a RE-exchange with the same host key. "
                 "Transport.connect over all 64 option combinations x 2 server key types (hostkey absent / same / "
                 "other of the same type / other type; pkey, password, gss_auth, gss_kex) with recording auth_* "
                 "methods. distinct = distinct (engine, role, packets) / (kex, algorithm, edit); non-trivial = a complete "
